@@ -30,6 +30,12 @@ AFTER = {
     "C01-clone-dirblock-list-unadjusted-bigalloc": "directed cases: a regular file claims the first block of a multi-block directory (passes 1B-1D must clone it) on every corpus image, incl. the three bigalloc ones",
     "C05-empty-xattr-value-collision": "corpus image with 128-byte inodes and empty-valued attributes in xattr blocks",
 }
+# changes whose own demonstration passes on the final tree: a later repair made the property hold in spite of them
+NEUTRAL = {
+    "C02-check-desc-one-pass": "no longer breaks the property: since fix b97b4e21 pass 1 detects a table placed on a later "
+                               "group's backup blocks independently of ext2fs_check_desc(); the change's own demonstration "
+                               "passes on the changed build of the final tree (it was caught by C02 before that fix went in)",
+}
 rows = []
 for name in sorted(os.listdir(os.path.join(HERE, "seeded"))):
     mp = os.path.join(HERE, "seeded", name, "meta.json")
@@ -43,6 +49,9 @@ for name in sorted(os.listdir(os.path.join(HERE, "seeded"))):
     if len(summ) > 230:
         summ = summ[:227].rsplit(" ", 1)[0] + " ..."
     after = AFTER.get(name, "")
+    if name in NEUTRAL and not caught:
+        rows.append("| %s | %s | %s |" % (name, summ, NEUTRAL[name]))
+        continue
     if after is None or not caught:
         verdict = "**not caught**"
         if after:
